@@ -33,16 +33,6 @@ pub enum Cnt {
 }
 
 #[derive(Copy, Clone)]
-pub enum Strat {
-    /// via_parser(f)
-    Via(&'static G),
-    /// skip_until(skip, until, || fallback) ; fallback digest = tok(0xFB)
-    SkipUntil(&'static G, &'static G),
-    /// skip_then_retry_until(skip, until)
-    SkipRetry(&'static G, &'static G),
-}
-
-#[derive(Copy, Clone)]
 pub enum G {
     // ---- primitives -------------------------------------------------------------------------
     Just(u8),
@@ -112,7 +102,12 @@ pub enum G {
     // ---- non-fatal errors / recovery ---------------------------------------------------------
     /// validate: emits error `id` spanning the match, output unchanged
     Validate(&'static G, u8),
-    Recover(&'static G, Strat),
+    /// a.recover_with(via_parser(f))
+    RecVia(&'static G, &'static G),
+    /// a.recover_with(skip_until(skip, until, || fallback)) ; fallback digest = tok(0xFB)
+    RecSkipUntil(&'static G, &'static G, &'static G),
+    /// a.recover_with(skip_then_retry_until(skip, until))
+    RecSkipRetry(&'static G, &'static G, &'static G),
 }
 
 #[derive(Copy, Clone)]
@@ -548,66 +543,90 @@ pub fn eval(g: &G, pos: usize, env: &mut Env) -> R {
             env.emit(id, pos, p);
             Some((x, p))
         }
-        G::Recover(a, strat) => {
+        // recover_with: three separate constructors (not one constructor carrying a strategy enum) so that the
+        // solver's constant propagation resolves the strategy from the grammar constant — with a nested enum the
+        // dispatch stayed symbolic and every strategy loop was unrolled (measured: 12 GB)
+        G::RecVia(a, f) => {
             let m = (env.n_emis, env.wsum);
             if let Some(r) = eval(a, pos, env) {
                 return Some(r);
             }
-            (env.n_emis, env.wsum) = m;
-            // E = the error the parse would report as primary had this failure been final
-            let e = env.far;
-            env.far = Far { set: false, pos: 0, exp: 0, custom: false };
-            let r = match strat {
-                Strat::Via(f) => eval(f, pos, env),
-                Strat::SkipUntil(skip, until) => {
-                    let mut p = pos;
-                    loop {
-                        let m2 = (env.n_emis, env.wsum);
-                        if let Some((_, q)) = eval(until, p, env) {
-                            break Some((Tr::tok(0xFB), q));
-                        }
-                        (env.n_emis, env.wsum) = m2;
-                        match eval(skip, p, env) {
-                            Some((_, q)) => p = q,
-                            None => break None,
-                        }
-                    }
+            let e = rec_begin(env, m);
+            let r = eval(f, pos, env);
+            rec_end(env, m, e, r)
+        }
+        G::RecSkipUntil(a, skip, until) => {
+            let m = (env.n_emis, env.wsum);
+            if let Some(r) = eval(a, pos, env) {
+                return Some(r);
+            }
+            let e = rec_begin(env, m);
+            let mut p = pos;
+            let r = loop {
+                let m2 = (env.n_emis, env.wsum);
+                if let Some((_, q)) = eval(until, p, env) {
+                    break Some((Tr::tok(0xFB), q));
                 }
-                Strat::SkipRetry(skip, until) => {
-                    let mut p = pos;
-                    loop {
-                        let m2 = (env.n_emis, env.wsum);
-                        let u = eval(until, p, env);
-                        (env.n_emis, env.wsum) = m2;
-                        if u.is_some() {
-                            break None;
-                        }
-                        match eval(skip, p, env) {
-                            Some((_, q)) => p = q,
-                            None => break None,
-                        }
-                        let m3 = (env.n_emis, env.wsum);
-                        match eval(a, p, env) {
-                            Some(r) if env.n_emis == m3.0 => break Some(r),
-                            _ => {
-                                (env.n_emis, env.wsum) = m3;
-                                env.far = Far { set: false, pos: 0, exp: 0, custom: false };
-                            }
-                        }
+                (env.n_emis, env.wsum) = m2;
+                match eval(skip, p, env) {
+                    Some((_, q)) => p = q,
+                    None => break None,
+                }
+            };
+            rec_end(env, m, e, r)
+        }
+        G::RecSkipRetry(a, skip, until) => {
+            let m = (env.n_emis, env.wsum);
+            if let Some(r) = eval(a, pos, env) {
+                return Some(r);
+            }
+            let e = rec_begin(env, m);
+            let mut p = pos;
+            let r = loop {
+                let m2 = (env.n_emis, env.wsum);
+                let u = eval(until, p, env);
+                (env.n_emis, env.wsum) = m2;
+                if u.is_some() {
+                    break None;
+                }
+                match eval(skip, p, env) {
+                    Some((_, q)) => p = q,
+                    None => break None,
+                }
+                let m3 = (env.n_emis, env.wsum);
+                match eval(a, p, env) {
+                    Some(r) if env.n_emis == m3.0 => break Some(r),
+                    _ => {
+                        (env.n_emis, env.wsum) = m3;
+                        env.far = Far { set: false, pos: 0, exp: 0, custom: false };
                     }
                 }
             };
-            match r {
-                Some((x, q)) => {
-                    env.emit(0xEE, e.pos, e.pos);
-                    Some((x, q))
-                }
-                None => {
-                    (env.n_emis, env.wsum) = m;
-                    env.far = e;
-                    None
-                }
-            }
+            rec_end(env, m, e, r)
+        }
+    }
+}
+
+/// the first attempt failed: forget its emissions; E = the error the parse would report as primary had this failure
+/// been final; the strategy then runs with a clean slate of pending errors
+fn rec_begin(env: &mut Env, m: (usize, usize)) -> Far {
+    (env.n_emis, env.wsum) = m;
+    let e = env.far;
+    env.far = Far { set: false, pos: 0, exp: 0, custom: false };
+    e
+}
+
+/// strategy succeeded: its output plus exactly one extra error, E; strategy failed: fail with E, nothing consumed
+fn rec_end(env: &mut Env, m: (usize, usize), e: Far, r: R) -> R {
+    match r {
+        Some((x, q)) => {
+            env.emit(0xEE, e.pos, e.pos);
+            Some((x, q))
+        }
+        None => {
+            (env.n_emis, env.wsum) = m;
+            env.far = e;
+            None
         }
     }
 }
